@@ -201,8 +201,10 @@ fn vq_c09_pn_map_remove_range() {
     kani::cover!(true, "reach:end");
 }
 
-//@ harness props=C09,C16 tier=thorough level=bounded timeout=3000 bound="K<=3 entries before the insert, ring capacity 8 with the oldest entry in slot 6, new packet number within the ring (gap < 8: no growth; the growth variant crashed CBMC with status 139)"
+//@ harness props=C09,C16 tier=thorough level=bounded timeout=3000 bound="K<=3 entries before the insert, ring capacity 8 with the oldest entry in slot 6, new packet number within the ring (gap < 8: no growth)"
 //@ fn packet::number::Map::insert
+// STATUS: undecided in every run so far -- CBMC 6.11 terminates with status 139 (SIGSEGV) after ~4-9 min on this
+// harness, with and without the ring-growth case (Map::resize: Vec::extend over mapped iter_mut slices).
 #[kani::proof]
 #[kani::unwind(10)]
 fn vq_c09_pn_map_insert() {
